@@ -903,9 +903,20 @@ def mpf_atan2(y, x, prec, rnd=round_fast):
         if y == fzero:
             return fzero
         return mpf_shift(mpf_pi(prec, rnd), -1)
-    tquo = mpf_atan(mpf_div(y, x, prec+4), prec+4)
+    # Here y > 0, so the result lies in (0, pi). For a directed rounding,
+    # round every intermediate step (quotient, atan, pi) in the same
+    # direction; all of them are increasing, so the result stays on the
+    # requested side of the exact value.
+    wp = prec + 4
+    if rnd in (round_floor, round_down):
+        r = round_floor
+    elif rnd in (round_ceiling, round_up):
+        r = round_ceiling
+    else:
+        r = round_fast
+    tquo = mpf_atan(mpf_div(y, x, wp, r), wp, r)
     if xsign:
-        return mpf_add(mpf_pi(prec+4), tquo, prec, rnd)
+        return mpf_add(mpf_pi(wp, r), tquo, prec, rnd)
     else:
         return mpf_pos(tquo, prec, rnd)
 
